@@ -416,6 +416,21 @@ fn gen_config(rng: &mut Rng, alpha: &[(char, char)]) -> Config {
     // digits outside the word delimiters: TeX §962 stores them like any other and §965 clears them again
     // ("if hc[1]=0 then hyf[0]:=0; if hc[k]=0 then hyf[k]:=0"): `9.ab` is `.ab`, `b3.9` is `b3.` (found by the
     // coverage-guided stage: the code under test looked at the first/last *character* of the text to find the anchors)
+    // written-out zeros: `a0b1c` is `ab1c` (TeX §962 stores the 0 like any other digit)
+    for p in cfg.patterns.iter_mut() {
+        if rng.chance(1, 8) {
+            let cs: Vec<char> = p.chars().collect();
+            let mut out = String::new();
+            for (i, c) in cs.iter().enumerate() {
+                out.push(*c);
+                let next_is_letter = cs.get(i + 1).map(|n| !n.is_ascii_digit() && *n != '.').unwrap_or(false);
+                if !c.is_ascii_digit() && *c != '.' && next_is_letter && rng.chance(1, 2) {
+                    out.push('0');
+                }
+            }
+            *p = out;
+        }
+    }
     for p in cfg.patterns.iter_mut() {
         if p.starts_with('.') && rng.chance(1, 10) {
             p.insert(0, (b'1' + rng.below(9) as u8) as char);
